@@ -36,6 +36,9 @@ type C16Op struct {
 	Seed uint32 `json:"order_seed,omitempty"`
 	// Reuse (load): Load is called on the object in use instead of on a new one
 	Reuse bool `json:"same_object,omitempty"`
+	// fill: FillN searches with distinct queries of FillLen characters in a row (files of hundreds of KiB)
+	FillN   int `json:"fill_n,omitempty"`
+	FillLen int `json:"fill_len,omitempty"`
 }
 
 type C16Case struct {
@@ -89,6 +92,12 @@ func genC16(rt *rapid.T) C16Case {
 		c.Queries = append(c.Queries, strconv.Quote(rapid.SampledFrom(pool[:rapid.SampledFrom([]int{4, 4, 10, len(pool)}).Draw(rt, "poolcut")]).Draw(rt, "query")))
 	}
 	kinds := swarmKinds(rt, []string{"add", "add", "add", "add", "add", "save", "save", "load", "load", "clear", "advance", "advance", "damage", "handmade"}, "add")
+	if rapid.IntRange(0, 24).Draw(rt, "bulky") == 12 {
+		kinds = append(kinds, "fill") // rare: each costs milliseconds
+		if rapid.Bool().Draw(rt, "bigmax") {
+			c.Max = 3000
+		}
+	}
 	opGen := rapid.Custom(func(rt *rapid.T) C16Op {
 		op := C16Op{Kind: rapid.SampledFrom(kinds).Draw(rt, "kind")}
 		switch op.Kind {
@@ -106,6 +115,15 @@ func genC16(rt *rapid.T) C16Case {
 			op.Doc = rapid.SampledFrom(c16Docs).Draw(rt, "doc")
 		case "load":
 			op.Reuse = rapid.IntRange(0, 2).Draw(rt, "reuse") == 0
+		case "fill":
+			switch rapid.IntRange(0, 2).Draw(rt, "fillkind") {
+			case 0:
+				op.FillN, op.FillLen = 120, 12
+			case 1:
+				op.FillN, op.FillLen = 95, 4000
+			default:
+				op.FillN, op.FillLen = 2600, 24
+			}
 		}
 		op.K = rapid.SampledFrom([]int{0, 1, 2, 3, 10, -1}).Draw(rt, "k")
 		op.Seed = rapid.Uint32Range(0, 16).Draw(rt, "oseed")
@@ -381,6 +399,25 @@ func runC16Body(c C16Case) *Outcome {
 			if len(sh.Entries) == 0 || sh.Entries[len(sh.Entries)-1].Query != q {
 				return fail("add-lost", "step %d: after AddEntry(%q) the newest entry is not that search (the log holds %d entries, maximum in force %d)", i, q, len(sh.Entries), sh.MaxSize)
 			}
+		case "fill":
+			var pan any
+			for k := 0; k < op.FillN && pan == nil; k++ {
+				q := fmt.Sprintf("fill %d-%d %s", i, k, strings.Repeat("q", op.FillLen))
+				pan = guard("add", func() { sh.AddEntry(q, k%7, "", time.Duration(k%40)*time.Millisecond) })
+				m = append(m, histEntry{q, k % 7, "", int64(k % 40), simtime.Now()})
+				if sh.MaxSize > 0 {
+					maxInForce = sh.MaxSize
+				}
+				if len(m) > maxInForce {
+					m = m[len(m)-maxInForce:]
+					trimmed++
+				}
+			}
+			log = append(log, fmt.Sprintf("fill(%d searches of %d characters)", op.FillN, op.FillLen))
+			if pan != nil {
+				return fail("add-panic", "step %d: AddEntry panicked during a run of %d searches: %v", i, op.FillN, pan)
+			}
+			beh = append(beh, "F")
 		case "save":
 			var err error
 			if p := guard("save", func() { err = sh.Save() }); p != nil {
@@ -462,7 +499,10 @@ func runC16Body(c C16Case) *Outcome {
 			log = append(log, fmt.Sprintf("load(same object=%v)=%v", op.Reuse, err != nil))
 			sh = fresh
 			_, exists := disk.Files[c16Path]
-			if fileOurs && exists {
+			// fileOurs: nobody but the tool touched the file since its last Save / Clear. If the tool itself removed
+			// it (a Clear that deletes instead of writing an empty log), what it persisted is still `saved`.
+			if fileOurs {
+				_ = exists
 				if err != nil {
 					return fail("roundtrip", "step %d: Load of the file Save wrote fails: %v", i, err)
 				}
